@@ -213,22 +213,10 @@ def run(ctx):
     # ------------------------------------------------------------------ C14.ne / C14.sep (parser)
     parser = ctx.model.module(P, "parser")
     rel = ctx.model.func(P, "parser", "parse_rel_expr")
-    natives = {}
-    for n in ast.walk(rel.node):
-        if isinstance(n, ast.If):
-            t = n.test
-            ops = []
-            if isinstance(t, ast.Compare) and isinstance(t.left, ast.Name) and t.left.id == "relop":
-                if isinstance(t.ops[0], ast.Eq) and isinstance(t.comparators[0], ast.Constant):
-                    ops = [t.comparators[0].value]
-                elif isinstance(t.ops[0], ast.In) and isinstance(t.comparators[0], ast.List):
-                    ops = [x.value for x in t.comparators[0].elts if isinstance(x, ast.Constant)]
-            for st in n.body:
-                for c in ast.walk(st):
-                    if isinstance(c, ast.Call) and norm(c.func) == "func_call" and c.args \
-                            and isinstance(c.args[0], ast.Constant):
-                        for o in ops:
-                            natives[o] = c.args[0].value
+    from .common import operator_natives
+    natives = operator_natives(ctx.model, rel)
+    if not natives:
+        ctx.broken("parse_rel_expr", "the comparison loop is not understood (no token -> native pair extracted)")
     ok = "!=" in natives and "<>" in natives and natives["!="] == natives["<>"] == "not_equals"
     ctx.check("C14.ne", rel, None, ok, f"'!=' and '<>' do not map to the same native: {natives}",
               expr="relop table", site="parse_rel_expr: '!=' and '<>' -> not_equals")
